@@ -178,7 +178,11 @@ DoAddNode(S, p, Src, x, k, deep, pos, why) ==
    LET seq == KidsOf(S, p)
        at  == PosIndex(S, p, seq, pos)
        dup == Src.did[x] \in SeqSet(KidDids(S, p))
-   IN IF at = 0 THEN Refuse(S, AnyErr \cup (IF dup THEN {"UniqueConstraintError"} ELSE {}), why \o ":badpos")
+   IN IF PosOOB(seq, pos) THEN
+           (IF dup THEN Refuse(S, AnyErr \cup {"UniqueConstraintError"}, why \o ":oob_dup")
+            ELSE Result(TRUE, AnyErr, why \o ":oob", S.n + 1,
+                        CopyNodeAt(S, p, Len(seq) + 1, Src, x, CopyKind(S, Src, x, k), deep)))
+      ELSE IF at = 0 THEN Refuse(S, AnyErr \cup (IF dup THEN {"UniqueConstraintError"} ELSE {}), why \o ":badpos")
       ELSE IF dup THEN Refuse(S, {"UniqueConstraintError"}, why \o ":dup")
       ELSE LET S1 == CopyNodeAt(S, p, at, Src, x, CopyKind(S, Src, x, k), deep) IN
            Result(TRUE, NoErr, why, S.n + 1, S1)
